@@ -33,6 +33,16 @@
 (* from the recorded history; an algorithm that returns by itself may      *)
 (* report its own point (linear solvers).                                  *)
 (*                                                                         *)
+(* A driver INSTANCE keeps the set `mine` of the new-iteration listeners   *)
+(* it registered (its own callback "drv" and, when the problem has         *)
+(* new-iteration observables, their evaluation "obs"); ClearListeners      *)
+(* removes exactly these from the database and empties the set.  The       *)
+(* instance may then be reused on ANOTHER problem (SwitchProblem: fresh     *)
+(* database, counter and listener lists; `mine` is the instance's).        *)
+(* MultiStart refuses per-level budgets that do not fit the global one     *)
+(* (1 + n_start * opt_algo_max_iter <= max_iter): phase "rejected", the    *)
+(* documented ValueError, after the evaluation at x0 only.                 *)
+(*                                                                         *)
 (* A point is an integer id; NanPt stands for a design vector containing a *)
 (* NaN.  A name is <<function, "val" | "jac">>.  One request is served in  *)
 (* sub-steps held in req.st:                                               *)
@@ -44,7 +54,8 @@ CONSTANTS
   Points,            \* point ids (positive naturals)
   NFuncs,            \* number of functions of the problem explored by TLC (objective + constraints)
   MaxExec,           \* consecutive executions explored on the same problem
-  AssumeValueFirst   \* environment assumption DriverAsksValueWithJacobian
+  AssumeValueFirst,  \* environment assumption DriverAsksValueWithJacobian
+  Switch             \* explore the reuse of the driver instance on another problem (SwitchProblem)
 
 NanPt == 0
 Range(s) == {s[i] : i \in 1..Len(s)}
@@ -52,14 +63,14 @@ Causes == {"MaxIter", "Ftol", "Xtol", "Kkt", "MaxTime", "FunctionIsNan", "Desvar
 
 VARIABLES
   funcs,      \* the functions of the problem: sequence of names, the objective first (never changes)
-  phase,      \* idle | prerun | running | terminated | built | cleared | postrun | crashed
+  phase,      \* idle | prerun | running | terminated | built | cleared | postrun | crashed | rejected
   cfg,        \* settings of the current execution (see Execute)
   keys,       \* database keys in insertion order
   outs,       \* key -> set of names stored at that key (possibly {})
   cur, max,   \* evaluation counter
   nil,        \* new-iteration listeners of the database, in call order
   sl,         \* store listeners of the database, in call order
-  mine,       \* new-iteration listeners registered by this execution (__new_iter_listeners)
+  mine,       \* new-iteration listeners registered by the driver instance (__new_iter_listeners)
   req,        \* the request being served
   todo,       \* gemseo's own pending requests at point `at` (pre-run at x0 / one DOE sample)
   at,
@@ -91,7 +102,7 @@ vars  == <<funcs, phase, cfg, keys, outs, cur, max, nil, sl, mine, req, todo, at
 NoReq == [st |-> "none", n |-> <<Obj, "val">>, p |-> NanPt, k |-> 0]
 NoCfg == [kind |-> "opt", N |-> 1, reset |-> TRUE, grad |-> FALSE, useDb |-> TRUE, storeJac |-> TRUE,
           stopIfNan |-> TRUE, maxTime |-> FALSE, kkt |-> FALSE, nx |-> 2, x0 |-> NanPt, samples |-> <<>>,
-          composite |-> FALSE]
+          composite |-> FALSE, obs |-> FALSE, sub |-> 0]
 
 IsEmpty(p)  == p \notin DOMAIN outs \/ outs[p] = {}
 NonEmpty    == {p \in DOMAIN outs : outs[p] # {}}
@@ -132,9 +143,11 @@ SeedEmpty(p) ==
 Execute(c) ==
   /\ phase \in {"idle", "postrun"} /\ nexec < MaxExec
   /\ cfg' = c
-  /\ LET add == "drv" \notin Range(nil)
-     IN  /\ nil'  = (IF add THEN Append(nil, "drv") ELSE nil)
-         /\ mine' = (IF add THEN {"drv"} ELSE {})
+  /\ LET addObs == c.obs /\ "obs" \notin Range(nil)        \* problem.new_iter_observables.evaluate first
+         nil1   == IF addObs THEN Append(nil, "obs") ELSE nil
+         addDrv == "drv" \notin Range(nil1)
+     IN  /\ nil'  = (IF addDrv THEN Append(nil1, "drv") ELSE nil1)
+         /\ mine' = mine \cup (IF addObs THEN {"obs"} ELSE {}) \cup (IF addDrv THEN {"drv"} ELSE {})
   /\ sl' = (IF c.kind = "opt" /\ c.grad /\ c.kkt THEN Append(sl, "kkt") ELSE sl)
   /\ max' = c.N
   /\ cur' = (IF c.reset THEN 0 ELSE cur)
@@ -149,9 +162,11 @@ Execute(c) ==
   /\ phase' = "prerun"
   /\ UNCHANGED <<funcs, dbv, nexec>>
 
+(* MultiStart._run: the per-level budgets must leave room for the evaluation at x0 *)
+BadLevels(c) == c.kind = "opt" /\ c.composite /\ c.sub > c.N - 1
 PreRunDone ==
   /\ phase = "prerun" /\ todo = <<>> /\ req.st = "none"
-  /\ phase' = "running"
+  /\ phase' = (IF BadLevels(cfg) THEN "rejected" ELSE "running")
   /\ UNCHANGED <<funcs, cfg, dbv, ctr, lst, req, todo, at, doev, stop, resv, nexec, histv, origPts, raised>>
 
 Stop(cause) == phase' = "terminated" /\ stop' = cause /\ req' = NoReq /\ todo' = <<>>
@@ -277,10 +292,14 @@ BuildResult(x) ==
   /\ phase' = "built"
   /\ UNCHANGED <<funcs, cfg, dbv, ctr, lst, req, todo, at, doev, stop, nexec, histv, origPts, raised>>
 
+(* Database.clear_listeners removes each listener of the set with list.remove: a listener that is not
+   on this database (left in the set by an execution on another problem) would be a ValueError *)
 ClearListeners ==
   /\ phase = "built"
-  /\ nil' = Without(nil, mine) /\ mine' = {} /\ UNCHANGED sl
-  /\ phase' = "cleared"
+  /\ IF mine \subseteq Range(nil)
+       THEN nil' = Without(nil, mine) /\ mine' = {} /\ phase' = "cleared"
+       ELSE UNCHANGED <<nil, mine>> /\ phase' = "crashed"
+  /\ UNCHANGED sl
   /\ UNCHANGED <<funcs, cfg, dbv, ctr, req, todo, at, doev, stop, resv, nexec, histv, origPts, raised>>
 
 PostRun ==
@@ -288,23 +307,37 @@ PostRun ==
   /\ phase' = "postrun" /\ nexec' = nexec + 1
   /\ UNCHANGED <<funcs, cfg, dbv, ctr, lst, req, todo, at, doev, stop, resv, histv, origPts, raised>>
 
+(* --- the driver instance is reused on another, fresh problem (its own database, counter, listeners) --- *)
+SwitchProblem ==
+  /\ Switch /\ phase = "postrun" /\ nexec < MaxExec
+  /\ phase' = "idle"
+  /\ keys' = <<>> /\ outs' = <<>> /\ cur' = 0 /\ max' = 0
+  /\ nil' = <<"user">> /\ sl' = <<"user">> /\ UNCHANGED mine
+  /\ filled0' = {} /\ keys0' = <<>> /\ nil0' = <<>> /\ cur0' = 0 /\ origPts' = {} /\ raised' = {}
+  /\ stop' = "none" /\ hasResult' = FALSE /\ xopt' = NanPt
+  /\ UNCHANGED <<funcs, cfg, req, todo, at, doev, nexec>>
+
 (* ------------------------------------------------------------------ configurations explored *)
-CONSTANTS MaxN, NXs, UseDbs, StoreJacs, WithNanPt, Composites, Kkts
+CONSTANTS MaxN, NXs, UseDbs, StoreJacs, WithNanPt, Composites, Kkts, Obss
 PtsN == IF WithNanPt THEN Points \cup {NanPt} ELSE Points
 SeqsOf(S, n) == [1..n -> S]
 ModelCfgs ==
+  { c \in
   { [kind |-> "opt", N |-> n, reset |-> r, grad |-> g, useDb |-> u, storeJac |-> sj, stopIfNan |-> TRUE,
-     maxTime |-> TRUE, kkt |-> (g /\ k), nx |-> nx, x0 |-> x, samples |-> <<>>, composite |-> cp] :
+     maxTime |-> TRUE, kkt |-> (g /\ k), nx |-> nx, x0 |-> x, samples |-> <<>>, composite |-> cp,
+     obs |-> ob, sub |-> sb] :
        n \in 1..MaxN, r \in BOOLEAN, g \in BOOLEAN, u \in UseDbs, sj \in StoreJacs, nx \in NXs, x \in Points,
-       cp \in Composites, k \in Kkts }
+       cp \in Composites, k \in Kkts, ob \in Obss, sb \in {0, 1, MaxN} } : c.composite \/ c.sub = 0 }
   \cup
   { [kind |-> "doe", N |-> Len(s), reset |-> r, grad |-> g, useDb |-> u, storeJac |-> sj, stopIfNan |-> FALSE,
-     maxTime |-> TRUE, kkt |-> FALSE, nx |-> nx, x0 |-> NanPt, samples |-> s, composite |-> FALSE] :
+     maxTime |-> TRUE, kkt |-> FALSE, nx |-> nx, x0 |-> NanPt, samples |-> s, composite |-> FALSE,
+     obs |-> ob, sub |-> 0] :
        s \in UNION {SeqsOf(PtsN, n) : n \in 1..MaxN}, r \in BOOLEAN, g \in BOOLEAN, u \in UseDbs,
-       sj \in StoreJacs, nx \in NXs }
+       sj \in StoreJacs, nx \in NXs, ob \in Obss }
 
 Next ==
   \/ \E c \in ModelCfgs : Execute(c)
+  \/ SwitchProblem
   \/ \E p \in Points : SeedEmpty(p)
   \/ PreRunDone
   \/ \E n \in Names, p \in PtsN : Ask(n, p)
@@ -320,7 +353,7 @@ Spec == Init /\ [][Next]_vars
 
 (* ------------------------------------------------------------------ the property *)
 TypeOK ==
-  /\ phase \in {"idle", "prerun", "running", "terminated", "built", "cleared", "postrun", "crashed"}
+  /\ phase \in {"idle", "prerun", "running", "terminated", "built", "cleared", "postrun", "crashed", "rejected"}
   /\ req.st \in {"none", "call", "store", "listen", "notify"}
   /\ DOMAIN outs = Range(keys)
   /\ stop \in Causes \cup {"none"}
@@ -360,6 +393,15 @@ AlwaysResult ==
 NoListenerLeak ==
   /\ phase \in {"cleared", "postrun"} => nil = nil0
   /\ Cardinality({j \in 1..Len(nil) : nil[j] = "drv"}) <= 1
+
+(* the driver's set holds listeners that are on the database, and nothing once the run is over: the
+   instance can be reused on another problem *)
+MineClean ==
+  /\ mine \subseteq Range(nil)
+  /\ phase \in {"idle", "cleared", "postrun"} => mine = {}
+
+(* refused settings: nothing but the evaluation at x0 was recorded *)
+RejectClean == phase = "rejected" => (BadLevels(cfg) /\ Cardinality(NewFilled) <= 1)
 
 (* DOE: keys created by this run = first occurrences of the evaluated samples, in generation order
    (stated for user functions that do not raise at a point where they also return: a sample skipped at
